@@ -15,6 +15,7 @@ type node = { mutable st : hg; shadow : (string, string) Hashtbl.t; mutable pool
 let nodes : (string, node) Hashtbl.t = Hashtbl.create 16
 let kcount = ref 0
 let dead : (string, unit) Hashtbl.t = Hashtbl.create 16   (* nodes with injected faults: not modelled any more *)
+let reset_nodes : (string, unit) Hashtbl.t = Hashtbl.create 16   (* nodes that fast-forwarded (resetdrv.ml): they can re-learn their own old events from gossip *)
 let body_of_id : (string, string) Hashtbl.t = Hashtbl.create 64
 let id_of_body : (string, string) Hashtbl.t = Hashtbl.create 64
 
@@ -129,7 +130,7 @@ let handle check diff (toks : string list) (raw : string) : bool =
     check "J" raw expect (res_str res); true
   | "P" :: id :: [] -> let n = node_of id in n.st <- run_consensus n.st; true
   | "F" :: id :: [] -> Hashtbl.replace dead id (); true
-  | "H" :: _ -> Hashtbl.reset nodes; Hashtbl.reset batched; Hashtbl.reset dead; Hashtbl.reset body_of_id; Hashtbl.reset id_of_body; true
+  | "H" :: _ -> Hashtbl.reset nodes; Hashtbl.reset batched; Hashtbl.reset dead; Hashtbl.reset reset_nodes; Hashtbl.reset body_of_id; Hashtbl.reset id_of_body; true
   | "N" :: id :: self :: gen ->
     let ps = map (fun t -> match Stdlib.String.split_on_char ':' t with
         | [pid; ord] -> { Quorum.pid = z_of_string pid; pkey = z_of_string ord }
@@ -145,7 +146,10 @@ let handle check diff (toks : string list) (raw : string) : bool =
     let expect = match tail with "=>" :: r :: _ -> r | _ -> "?" in
     check "I" raw expect (res_str res);
     (* pools (NodeModel): a self-event carries exactly the transactions pending at its creation *)
-    if !pools_check && n.self <> "-1" && zs e.e_creator = n.self && res = InsOk then begin
+    (* (a reset node that receives one of its OWN events created before the reset -- payload differs from its pending
+       pool -- is not creating a self-event: the pool discipline of C05 says nothing about it) *)
+    if !pools_check && n.self <> "-1" && zs e.e_creator = n.self && res = InsOk
+       && not (Hashtbl.mem reset_nodes id && join (map zs e.e_txs) <> join (map zs n.pools.NodeModel.p_txs)) then begin
       let pending = join (map zs n.pools.NodeModel.p_txs) in
       check "SELF" raw (join (map zs e.e_txs)) pending;
       n.pools <- NodeModel.pstep n.pools (NodeModel.PSelfEvent (true, true, [], []))
@@ -184,7 +188,7 @@ let handle check diff (toks : string list) (raw : string) : bool =
          | None -> Hashtbl.replace id_of_body s i | _ -> ())) n.st.delivered;
     (* declarative layer (HgSpec) vs the implementation model, on a sample of the states *)
     incr kcount;
-    if !kcount mod 25 = 0 && Stdlib.List.length n.st.peersets = 1 && not (Hashtbl.mem batched id) then begin
+    if !kcount mod 25 = 0 && Stdlib.List.length n.st.peersets = 1 && not (Hashtbl.mem batched id) && n.st.lower_bound = None then begin
       let ps = snd (Stdlib.List.hd n.st.peersets) in
       let mm = HgSpec.spec_mismatches n.st ps in
       check "SPEC" raw "" (join (map (fun (x, k) -> Printf.sprintf "%s:%s" (zs x) (zs k)) mm))
